@@ -13,6 +13,8 @@ def parsePolicy (s : String) : Option FilterPolicy :=
   | ["none"] => some noFilterPolicy
   | ["firstbyte"] => some firstBytePolicy
   | ["rejectall"] => some rejectAllPolicy
+  | ["rejectallprefix"] => some rejectAllPrefixPolicy
+  | ["rejectallext"] => some rejectAllExtPolicy
   | _ => none
 
 /-- `k=v,k=v` with hex fields; "." is the empty list -/
